@@ -87,14 +87,34 @@ def make_input(kind, name, st: State, ex: Exec):
         return st.new(Cell("set", val=Val("st", z3.Const(name, SetS))))
     if kind == "obj":
         return st.new(Cell("obj", fields={}, cls=None, lazy=True, path=name))
+    if kind == "none":
+        return VNone
+    if kind == "opaque":
+        return Val("o", z3.Const(name, IntS))
     if isinstance(kind, str) and kind.startswith("obj:"):
         r = ex.resolve_global(kind[4:])
+        if not isinstance(r, ClassRef):  # class imported by the contract file rather than by the verified module
+            for cl in ex.contract.requires_ + ex.contract.ensures_ + ex.contract.raises_:
+                cm = source.load_module(cl.module) if cl.module else None
+                if cm is not None:
+                    saved = ex.mod
+                    ex.mod = cm
+                    try:
+                        r = ex.resolve_global(kind[4:])
+                    finally:
+                        ex.mod = saved
+                    if isinstance(r, ClassRef):
+                        break
         return st.new(Cell("obj", fields={}, cls=r if isinstance(r, ClassRef) else kind[4:], lazy=True, path=name))
     return Val("any", z3.Const(name, Any))
 
 
-def verify_function(contract: Contract, specs=None) -> FunctionReport:
-    rep = FunctionReport(contract.qual)
+def verify_function(contract: Contract, specs=None, variant=None) -> FunctionReport:
+    """variant: name of an entry of contract.opts['variants'] = {name: {"shape": {...}, "assume": fn}} — a case
+    split on the *inputs* (e.g. the concrete class of a collaborator); every variant is verified separately and
+    obligation ids carry the variant name."""
+    rep = FunctionReport(contract.qual + (f"[{variant}]" if variant else ""))
+    vopts = contract.opts.get("variants", {}).get(variant, {}) if variant else {}
     if contract.abstract:
         rep.error = None
         rep.assumptions = [f"ASSUMED CONTRACT {contract.qual}: {contract.assumed}"]
@@ -142,7 +162,9 @@ def verify_function(contract: Contract, specs=None) -> FunctionReport:
         if a.kwarg is not None:
             st.vars[a.kwarg.arg] = make_input("dict", a.kwarg.arg, st, ex)
         # declared shapes of nested input structure:  {"context.recursion_depth": "int", ...}
-        for path, kind in contract.opts.get("shape", {}).items():
+        shape = dict(contract.opts.get("shape", {}))
+        shape.update(vopts.get("shape", {}))
+        for path, kind in shape.items():
             parts = path.split(".")
             slot = st.vars[parts[0]]
             for ppart in parts[1:-1]:
@@ -164,10 +186,14 @@ def verify_function(contract: Contract, specs=None) -> FunctionReport:
         ex.params_bound = params_bound
         for cl in contract.requires_:
             st.assume(ex.eval_clause(cl, params_bound, st, None, {}))
+        if vopts.get("assume") is not None:
+            from .contracts import Clause
+            st.assume(ex.eval_clause(Clause("variant_" + variant, vopts["assume"], "requires"), params_bound, st, None, {}))
         ex.entry_pre = st.fork()
         ex.entry_pre.vars = dict(params_bound)
         rep.inputs = _collect_inputs(st)
-        site = contract.qual
+        site = contract.qual + (f"[{variant}]" if variant else "")
+        ex.fn_site = site
         rep.obligations.append(Obligation(f"{site}::cover:pre", "cover", list(st.pc), z3.BoolVal(True), {}, expect="sat"))
         outs = ex.exec_block(source.strip_docstring(fn.body), st)
         rep.exits = len(outs)
@@ -196,7 +222,7 @@ def verify_function(contract: Contract, specs=None) -> FunctionReport:
                 for cl in contract.ensures_:
                     g = ex.eval_clause(cl, _post_bound(cl, params_bound, extra), s2, ex.entry_pre, extra)
                     rep.obligations.append(Obligation(f"{site}::post:{cl.name}@{exit_id}", "post", list(s2.pc), g,
-                                                      {"exit": exit_id, "clause": cl.name, "line": ln}, aux=cl.aux))
+                                                      {"exit": exit_id, "clause": cl.name, "line": ln, "props": cl.props}, aux=cl.aux))
             else:
                 exc: Exc = o.payload
                 info = {"exit": exit_id, "exc": exc.cls, "origin": exc.origin, "line": ln}
@@ -212,9 +238,10 @@ def verify_function(contract: Contract, specs=None) -> FunctionReport:
                 extra = {"exc": exv}
                 for cl in contract.raises_:
                     g = ex.eval_clause(cl, _post_bound(cl, params_bound, extra), s2, ex.entry_pre, extra)
-                    rep.obligations.append(Obligation(f"{site}::raises:{cl.name}@{exit_id}", "raises", list(s2.pc), g, dict(info, clause=cl.name), aux=cl.aux))
-        if normal_pcs and not contract.opts.get("no_normal_cover"):
-            rep.obligations.append(Obligation(f"{site}::cover:normal-exit", "cover", [z3.Or(*normal_pcs)], z3.BoolVal(True), {}, expect="sat"))
+                    rep.obligations.append(Obligation(f"{site}::raises:{cl.name}@{exit_id}", "raises", list(s2.pc), g, dict(info, clause=cl.name, props=cl.props), aux=cl.aux))
+        all_pcs = [z3.And(*o.state.pc) if o.state.pc else z3.BoolVal(True) for o in outs]
+        if all_pcs:
+            rep.obligations.append(Obligation(f"{site}::cover:some-exit", "cover", [z3.Or(*all_pcs)], z3.BoolVal(True), {}, expect="sat"))
         rep.obligations.extend(ex.obligations)
     except OutOfSubset as e:
         rep.error = f"out of subset: {e}"
@@ -264,6 +291,29 @@ def _consts_of(f):
     return out
 
 
+def _uf_apps(f, limit=60):
+    """ground applications of uninterpreted functions (attr.*, call.*, plugin_effect, ...) occurring in f"""
+    seen, out, work = set(), [], [f]
+    while work and len(out) < limit:
+        t = work.pop()
+        if t.get_id() in seen:
+            continue
+        seen.add(t.get_id())
+        if z3.is_quantifier(t):
+            continue
+        if z3.is_app(t):
+            if t.num_args() > 0 and t.decl().kind() == z3.Z3_OP_UNINTERPRETED and not t.decl().name().startswith("py."):
+                if all(z3.is_const(a) or z3.is_app(a) for a in t.children()):
+                    out.append(t)
+            work.extend(t.children())
+    return out
+
+
+def _short(t):
+    s = t.sexpr().replace("\n", " ")
+    return " ".join(s.split())[:160]
+
+
 def _solve(idx_timeout):
     idx, timeout_ms, want_model = idx_timeout
     ob: Obligation = _TASKS[idx]
@@ -271,10 +321,26 @@ def _solve(idx_timeout):
     res = {"id": ob.id, "verdict": "unknown", "backend": "z3-5.1.0(py)", "time_s": 0.0, "model": None, "reason": ""}
     try:
         f = ob.formula()
-        s = z3.Solver()
-        s.set("timeout", timeout_ms)
-        s.add(f)
-        r = s.check()
+        # portfolio: z3's model search on nested array/datatype formulas is seed-sensitive (measured: the same
+        # satisfiable query is `unknown` after 4 s by default and `sat` in 10 ms with another phase selection).
+        # (array.extensional=false finds models fastest but they can violate extensionality: measured spurious
+        # refutation of an equality of two pointwise-equal arrays — not used.)
+        portfolio = [({}, 0.4), ({"smt.phase_selection": 0}, 0.2), ({"smt.case_split": 3}, 0.2),
+                     ({"smt.random_seed": 7}, 0.2)]
+        r = z3.unknown
+        s = None
+        for cfg, share in portfolio:
+            s = z3.Solver()
+            s.set("timeout", max(200, int(timeout_ms * share)))
+            for k_, v_ in cfg.items():
+                s.set(k_, v_)
+            s.add(f)
+            r = s.check()
+            if r != z3.unknown:
+                res["config"] = cfg
+                if r == z3.sat and cfg.get("smt.array.extensional") is False:
+                    res["weak_model"] = True
+                break
         res["time_s"] = round(time.time() - t0, 4)
         if r == z3.unsat:
             res["verdict"] = "unsat"
@@ -284,12 +350,19 @@ def _solve(idx_timeout):
                 m = s.model()
                 vals = {}
                 for name, c in _consts_of(f).items():
-                    if "!" in name:
+                    if "!" in name and not name.startswith("ret_"):
                         continue
                     try:
                         vals[name] = _jsonable(sym.decode_any(m, c))
                     except Exception as e:  # noqa
                         vals[name] = f"<undecodable: {e}>"
+                apps = {}
+                for t_ in _uf_apps(f):
+                    try:
+                        apps[_short(t_)] = _jsonable(sym.decode_any(m, t_))
+                    except Exception:  # noqa
+                        pass
+                vals["__apps__"] = apps
                 res["model"] = vals
         else:
             res["reason"] = s.reason_unknown()
@@ -340,7 +413,7 @@ def discharge(obligations: list[Obligation], timeout_s=10, procs=None, cvc5_time
     results = {}
     if not obligations:
         return results
-    tasks = [(k, int(timeout_s * 1000), True) for k in range(len(obligations))]
+    tasks = [(k, int((min(3, timeout_s) if obligations[k].kind == "cover" else timeout_s) * 1000), True) for k in range(len(obligations))]
     if len(obligations) <= 2 or procs == 1:
         rs = [_solve(t) for t in tasks]
     else:
